@@ -40,8 +40,8 @@ ASSUMPTIONS = [
     "CUBE_CORNERS of an axis with a single sample is undefined (division by n-1 = 0) and not judged",
     "the shape (D,D) vs (D,D+1) and the dtype of returned matrices / tensors are not part of the statement and not judged",
 ]
-MIN_NONTRIVIAL = {"quick": 4000, "thorough": 25000}
-MIN_OUTCOMES = {"quick": 8000, "thorough": 50000}
+MIN_NONTRIVIAL = {"quick": 7500, "thorough": 45000}
+MIN_OUTCOMES = {"quick": 35000, "thorough": 250000}
 MIN_SUB_TRACES = {"edge": 1000, "path": 1000, "anchors": 20, "lattice1d": 8000, "coordsND": 20, "gridsample": 400, "cube": 50}
 
 AXN = (GRID, CUBE, CORNERS, WORLD)
@@ -419,6 +419,7 @@ def check_edge(sink: Sink, pair: Pair, src, dst, tg_form: str, wrappers: bool = 
     for fn in ("transform", "grid_points_transform") if (full and wrappers) else ("transform",):
         sink.trans()
         st, M = guarded(call_edge, pair, src, dst, None, tg_form, fn)
+        sink.outcome("M", pair.key(), src, dst, tg_form, tensor_bytes(M) if st == "ok" else "raises:" + type(M).__name__)
         if st == "raises":
             emit(fn, "raises=" + type(M).__name__, exc_text(M))
             continue
@@ -426,7 +427,6 @@ def check_edge(sink: Sink, pair: Pair, src, dst, tg_form: str, wrappers: bool = 
         if ym is None:
             emit(fn, "matrix-shape", f"returned {tuple(M.shape) if isinstance(M, torch.Tensor) else type(M).__name__}")
             continue
-        sink.outcome("M", pair.key(), src, dst, tensor_bytes(M))
         exp = exp_fn(x32)
         err = float(np.abs(ym - exp).max())
         if not np.isfinite(err) or err > tol0:
@@ -438,13 +438,13 @@ def check_edge(sink: Sink, pair: Pair, src, dst, tg_form: str, wrappers: bool = 
     for fn in ("transform_vec", "grid_vectors_transform") if (full and wrappers) else ("transform_vec",):
         sink.trans()
         st, M = guarded(call_edge, pair, src, dst, None, tg_form, fn)
+        sink.outcome("Mv", pair.key(), src, dst, tg_form, tensor_bytes(M) if st == "ok" else "raises:" + type(M).__name__)
         if st == "raises":
             emit(fn, "raises=" + type(M).__name__, exc_text(M))
             continue
         if not isinstance(M, torch.Tensor) or M.ndim != 2 or M.shape[0] != D or M.shape[1] not in (D, D + 1):
             emit(fn, "matrix-shape", f"returned {tuple(M.shape) if isinstance(M, torch.Tensor) else type(M).__name__}")
             continue
-        sink.outcome("Mv", pair.key(), src, dst, tensor_bytes(M))
         yv = V @ as_np(M)[:, :D].T
         err = float(np.abs(yv - expv_fn(V)).max())
         if not np.isfinite(err) or err > tolv:
@@ -463,6 +463,8 @@ def check_edge(sink: Sink, pair: Pair, src, dst, tg_form: str, wrappers: bool = 
             sink.trans()
             st, got = guarded(call_edge, pair, src, dst, t, tg_form, "transform_points", decimals)
             fname = None if fi == 0 else form + dt
+            if fi == 0:
+                sink.outcome("P", pair.key(), src, dst, tg_form, dname, tensor_bytes(got) if st == "ok" else "raises:" + type(got).__name__)
             if fi > 0 and not base_ok.get(decimals, False):
                 sink.undef("edge: baseline form failed, further forms not judged")
                 continue
@@ -478,7 +480,6 @@ def check_edge(sink: Sink, pair: Pair, src, dst, tg_form: str, wrappers: bool = 
                 emit("transform_points", "input-modified", "the input tensor was modified in place", fname)
             if fi == 0:
                 base_ok[decimals] = True
-                sink.outcome("P", pair.key(), src, dst, dname, tensor_bytes(got))
                 if decimals is None and y_m is not None:
                     # every probe agrees with the returned matrix: no other branch than one matrix product
                     bad = compare(got, y_m, tol)
@@ -517,6 +518,8 @@ def check_edge(sink: Sink, pair: Pair, src, dst, tg_form: str, wrappers: bool = 
         sink.trans()
         st, got = guarded(call_edge, pair, src, dst, t, tg_form, "transform_vectors")
         fname = None if fi == 0 else form + dt
+        if fi == 0:
+            sink.outcome("V", pair.key(), src, dst, tg_form, tensor_bytes(got) if st == "ok" else "raises:" + type(got).__name__)
         if fi > 0 and not vbase_ok:
             sink.undef("edge: baseline form failed, further forms not judged")
             continue
@@ -533,7 +536,6 @@ def check_edge(sink: Sink, pair: Pair, src, dst, tg_form: str, wrappers: bool = 
         if fi == 0:
             vbase_ok = True
             vgot0 = got
-            sink.outcome("V", pair.key(), src, dst, tensor_bytes(got))
     if vbase_ok:
         tv, vin = form_input(V, "MD", "f32")
         for fn in ("apply_transform_vectors", "grid_transform_vectors") if (wrappers or not full) else ():
